@@ -415,6 +415,7 @@ func (w *World) checkChain(when string) {
 	}
 	root := append([]byte(nil), hx.GenesisRoot...)
 	var prev *types.SignedHeader
+	var prevData *types.Data
 	var prevTime time.Time
 	for k := ih; k <= h; k++ {
 		sh, d, err := e.Store.GetBlockData(ctx, k)
@@ -485,8 +486,24 @@ func (w *World) checkChain(when string) {
 		}
 		if d.Metadata == nil || d.Metadata.Height != k || d.Metadata.ChainID != e.Gen.ChainID {
 			c.Report("C01/chain/data-metadata", fmt.Sprintf("height %d", k))
+		} else if d.Metadata.Height != sh.Height() || d.Metadata.ChainID != sh.ChainID() || d.Metadata.Time != sh.BaseHeader.Time {
+			c.Report("C01/chain/data-metadata-differs-from-header", fmt.Sprintf("height %d: metadata %s/%d/%d header %s/%d/%d", k,
+				d.Metadata.ChainID, d.Metadata.Height, d.Metadata.Time, sh.ChainID(), sh.Height(), sh.BaseHeader.Time))
 		}
-		prev, prevTime = sh, sh.Time()
+		// the data chain: data(k) names the hash of data(k-1) - the adjacency rule the repo itself defines
+		// (types.Data.Verify, applied by go-header to the data P2P store); execValidate does not look at it
+		if d.Metadata != nil {
+			if prevData != nil {
+				want := prevData.Hash()
+				if err := prevData.Verify(d); err != nil || !bytes.Equal(d.Metadata.LastDataHash, want) {
+					c.Report("C01/chain/data-not-linked-to-previous-data", fmt.Sprintf("height %d: LastDataHash=%s, hash of data %d=%s (%v)", k,
+						bm.H8(d.Metadata.LastDataHash), k-1, bm.H8(want), err))
+				}
+			} else if len(d.Metadata.LastDataHash) != 0 {
+				c.Report("C01/chain/first-data-names-a-previous-data", fmt.Sprintf("height %d: LastDataHash=%s", k, bm.H8(d.Metadata.LastDataHash)))
+			}
+		}
+		prev, prevData, prevTime = sh, d, sh.Time()
 	}
 	if h >= ih && errS == nil && st.LastBlockHeight == h && !bytes.Equal(st.AppHash, root) {
 		c.Report("C01/state/app-hash", fmt.Sprintf("state root %s expected %s", bm.H8(st.AppHash), bm.H8(root)))
